@@ -131,6 +131,27 @@ def d2_d3_typestate(ctx, rm: REModel):
                f"(tuples {T.fmt(accepting)}): RunEngineInterrupted is raised with the engine not paused",
                nontrivial=True, where=where(run, s))
     ctx.expect("C08.D3-no-pause-window-after-loop", 4)
+    # D4: a pending interruption is never overridden by a later non-terminal request.  Once a hard pause was accepted
+    # (_interrupted set, state 'pausing') the caller WILL get RunEngineInterrupted; the engine must then reach 'paused' or be
+    # terminated.  So from 'pausing' (and from 'suspending') every request either leaves the state alone (rejected / no-op)
+    # or moves to aborting / stopping / halting - evaluated on the request summaries computed from the request coroutines.
+    n4 = 0
+    for name, f in eng.req_funcs.items():
+        for start in ("pausing", "suspending"):
+            outs = set()
+            for permit in (True, False):
+                for res in (True, False):
+                    for cancel in (True, False):
+                        for kind, g2 in eng.summary(f, T.G(start, permit, res, cancel), env=name):
+                            outs.add(g2.state)
+            bad = sorted(o for o in outs if o not in (start, "aborting", "stopping", "halting"))
+            n4 += 1
+            ctx.ob("C08.D4-pending-interruption-not-overridden", f"{f.key}: request '{name}' arriving in state {start!r}", not bad,
+                   f"leaves the engine in {sorted(outs)}" if not bad else
+                   f"a '{name}' request arriving while the engine is {start!r} moves it to {bad}: the pending "
+                   f"{'pause is dropped - the plan runs on, yet the caller still gets RunEngineInterrupted with the engine idle' if start == 'pausing' else 'suspension is replaced'}",
+                   nontrivial=True, where=where(f, f.node))
+    ctx.expect("C08.D4-pending-interruption-not-overridden", 10)
     ctx.extra["typestate"] = {"nodes_with_states": len(eng.IN), "summaries": eng.stats["summaries"]}
 
 
@@ -140,16 +161,20 @@ def run(ctx):
         "Decided: D1 __call__/resume raise RunEngineInterrupted exactly when _interrupted is set, tested right after the task "
         "ended; closed-world writers and values of _interrupted; D2 (typestate) 'paused' is entered only from 'pausing' with a "
         "resumable plan and the caller is released only after the state is 'paused'; D3 no await of _run outside the message "
-        "loop is reachable in a tuple from which a pause would still be accepted. Not decided: real timing.")
+        "loop is reachable in a tuple from which a pause would still be accepted; D4 no request arriving in 'pausing' / "
+        "'suspending' moves the engine anywhere but to a terminal state (a pending pause cannot be dropped). Not decided: real timing.")
     d1_raise_iff_interrupted(ctx, rm)
     d2_d3_typestate(ctx, rm)
 
 
-CLAIM = {'text': "Decides that RunEngineInterrupted is raised exactly when the interruption flag is set (tested right after the task ended, flag reset before each start, closed set of writers with constant values), that 'paused' is entered only from 'pausing' with a resumable plan and the caller is released only after that (typestate fixpoint), and that no await of _run outside the message loop is reachable in a tuple from which a pause is still accepted. The last clause fails on today's tree at six awaits (F-1 known findings). Real timing is not decided.", 'technique': 'typestate fixpoint queries; guard dominance; ownership table'}
+CLAIM = {'text': "Decides that RunEngineInterrupted is raised exactly when the interruption flag is set (tested right after the task ended, flag reset before each start, closed set of writers with constant values), that 'paused' is entered only from 'pausing' with a resumable plan and the caller is released only after that (typestate fixpoint), and that no await of _run outside the message loop is reachable in a tuple from which a pause is still accepted. The last clause fails on today's tree at six awaits (F-1 known findings). It also decides, on the request summaries, that no request arriving while a pause or suspension is pending moves the engine to a non-terminal state. Real timing is not decided.", 'technique': 'typestate fixpoint queries; guard dominance; ownership table'}
 
 
 RE = "run_engine.py"
 MUTANTS = [
+    ("a suspension may override a pending pause (seed C08-a)",
+     [(RE, '            "pausing": ["paused", "idle", "halting", "aborting", "panicked"],', '            "pausing": ["paused", "idle", "halting", "aborting", "suspending", "panicked"],')],
+     "C08.D4"),
     ("__call__ raises only when not idle",
      [(RE, "        plan_return = self._resume_task(init_func=_build_task)\n\n        if self._interrupted:", "        plan_return = self._resume_task(init_func=_build_task)\n\n        if self._interrupted and not self._state.is_idle:")],
      "C08.D1"),
